@@ -275,12 +275,49 @@ class Model:
         return c
 
 
+def table(pc, tab):
+    e = I(0)
+    for n, val in sorted(tab.items()):
+        e = z3.If(pc == n, I(val), e)
+    return e
+
+
+def ahead(M, kinds):
+    """for every worker node: the largest number of actions of the given kinds the worker can still perform
+    before it next READS the shutdown flag (computed on the extracted graph; a cycle without such a read
+    counts as unbounded)"""
+    UNB = 10 ** 6
+    out_edges = {}
+    for e in M.edges:
+        if e['thread'] == 'w':
+            out_edges.setdefault(e['src'], []).append(e)
+    memo = {}
+
+    def go(n, stack):
+        if n == M.gw.end:
+            return 0
+        if n in memo:
+            return memo[n]
+        if n in stack:
+            return UNB
+        best = 0
+        for e in out_edges.get(n, []):
+            first = e['label'].split(' ; ')[0]
+            if "'shutdown'" in first and 'read-' in first:
+                continue                      # the flag is read first: nothing happens before that
+            cnt = 1 if any(k in first for k in kinds) else 0
+            best = max(best, min(UNB, cnt + go(e['dst'], stack | {n})))
+        memo[n] = best
+        return best
+    return {n: go(n, frozenset()) for n in M.vis_w}
+
+
 def member(pc, nodes):
     nodes = sorted(nodes)
     return z3.Or(*[pc == n for n in nodes]) if nodes else z3.BoolVal(False)
 
 
-def invariant(M, v, C, with_readahead=True):
+def invariant(M, v, C, with_readahead=True, with_join=True):
     """The global invariant (DESIGN Appendix A), phrased over node classes."""
     gw, gc = M.gw, M.gc
     pcw, pcc = v['pcw'], v['pcc']
@@ -297,7 +334,8 @@ def invariant(M, v, C, with_readahead=True):
     at_get = member(pcc, C['C_GET'])
     at_write = member(pcc, C['C_WRITE'])
     at_join = member(pcc, C['C_JOIN'])
-    pendput = z3.If(member(pcw, C['W_PUT']), 1, 0)
+    pendput = table(pcw, ahead(M, ("'put-item'", "'put-sentinel'")))      # puts still possible before the next flag read
+    pullsoon = table(pcw, ahead(M, ("'pull-item'",)))
     held = z3.If(at_yield, 1, 0)          # an item handed out at the suspended yield
     conj = [
         # 1 ranges
@@ -347,10 +385,10 @@ def invariant(M, v, C, with_readahead=True):
         # 8 worker finished while the consumer still waits for data: the sentinel is queued
         z3.Implies(z3.And(pcw == WEND, at_get), sent == 1),
         # 9 at the join nothing can block the worker's last put
-        z3.Implies(at_join, qlen + pendput <= 1),
+        z3.Implies(at_join, qlen + pendput <= 1) if with_join else z3.BoolVal(True),
         z3.Implies(member(pcc, C['C_AFTERJOIN']), pcw == WEND),
         # 10 read-ahead (C07)
-        (pulled + z3.If(member(pcw, C['W_PULL']), 1, 0) <= deliv + held + M.B + 2)
+        (pulled + pullsoon <= deliv + held + M.B + 2)
         if (M.bounded and with_readahead) else z3.BoolVal(True),
     ]
     return z3.And(*conj)
@@ -373,11 +411,12 @@ def obligations(M, prop=None):
     obs = []
     P = M.params
     ra = prop in (None, 'C07')
-    inv0 = invariant(M, M.v, C, ra)
+    jn = prop in (None, 'C05')
+    inv0 = invariant(M, M.v, C, ra, jn)
     obs.append(('init', P + [init_state(M)], inv0))
     for i, e in enumerate(M.edges):
         pc = M.v['pc' + e['thread']]
-        post = invariant(M, e['post'], C, ra)
+        post = invariant(M, e['post'], C, ra, jn)
         nm = 'consecution[%s:%s->%s #%d %s]' % (e['thread'], M.gw.nodes[e['src']].kind if e['thread'] == 'w'
                                                else M.gc.nodes[e['src']].kind, e['dst'], i, e['label'][:60])
         obs.append((nm, P + [inv0, pc == e['src'], e['guard']], post))
@@ -406,10 +445,10 @@ def steps_left(M, g, vis, forbidden_acts, only_from=None):
         if n in memo:
             return memo[n]
         if n in stack:
-            raise Unsupported('cycle in the shutdown subgraph of thread %s' % t)
+            return 10 ** 6      # a cycle that does not read the flag: no bound (the ranking obligations then fail)
         best = 0
         for d in succ.get(n, ()):
-            best = max(best, 1 + go(d, stack | {n}))
+            best = max(best, min(10 ** 6, 1 + go(d, stack | {n})))
         memo[n] = best
         return best
     return {n: go(n, frozenset()) for n in vis}
@@ -426,7 +465,7 @@ def consequences(M, C, prop=None):
     """property clauses that follow from the invariant alone: (prop, name, assumptions, goal)"""
     v = M.v
     gw, gc = M.gw, M.gc
-    inv = invariant(M, v, C, prop in (None, 'C07'))
+    inv = invariant(M, v, C, prop in (None, 'C07'), prop in (None, 'C05'))
     P = M.params + [inv]
     pcw, pcc = v['pcw'], v['pcc']
     deliv = v['delivered']
@@ -499,7 +538,7 @@ def _run(prop):
             for name, a, g, kind in todo:
                 pr = smt.prove(a, g)
                 d = {'name': name, 'kind': kind, 'status': pr.status, 'backend': pr.backend, 'seconds': round(pr.seconds, 4)}
-                if pr.status == 'sat':
+                if pr.status == 'sat' and pr.model is not None:
                     m = pr.model
                     d['model'] = {str(x): str(m[x]) for x in m.decls() if x.arity() == 0 and not str(x).startswith('_')
                                   and str(x) != 'ELEM'}
